@@ -387,6 +387,59 @@ k_rawblock2(void) {
   coap_session_release(s);
 }
 
+/* K13: OSCORE: the server context gets an OSCORE configuration, a client session is created with the mirror
+ * configuration, one protected GET (+ the observe registration and one notification) */
+static coap_session_t *k13_sess;
+static coap_oscore_conf_t *
+k13_conf(int server) {
+  char conf[400];
+  snprintf(conf, sizeof conf,
+           "master_secret,hex,\"0102030405060708090a0b0c0d0e0f10\"\nmaster_salt,hex,\"9e7ca92223786340\"\n"
+           "sender_id,hex,\"%s\"\nrecipient_id,hex,\"%s\"\nrfc8613_b_1_2,bool,false\n",
+           server ? "01" : "02", server ? "02" : "01");
+  coap_str_const_t cm = {strlen(conf), (const uint8_t *)conf};
+  return coap_new_oscore_conf(cm, NULL, NULL, 0);
+}
+static void
+k_oscore(void) {
+  coap_oscore_conf_t *sc = k13_conf(1);
+  if (sc && !coap_context_oscore_server(S.sc, sc)) {
+    /* ownership: the configuration is consumed also on failure */
+  }
+  coap_oscore_conf_t *cc = k13_conf(0);
+  coap_address_t la;
+  ns_addr(&la, 52, 40009);
+  k13_sess = cc ? coap_new_client_session_oscore(S.cc, &la, &S.srv, COAP_PROTO_UDP, cc) : NULL;
+  if (!k13_sess)
+    return;
+  coap_pdu_t *p = cs_request(&S, k13_sess, 1, COAP_REQUEST_CODE_GET, "r", 0x71);
+  if (p)
+    coap_send(k13_sess, p);
+  cs_pump(&S, 400, 120000);
+  k13_sess->doing_first = 0; /* an application would call coap_io_process() until the first response or a NACK arrives */
+  p = cs_request(&S, k13_sess, 1, COAP_REQUEST_CODE_GET, "obs", 0x72);
+  if (p) {
+    coap_add_option(p, COAP_OPTION_OBSERVE, 0, NULL);
+    /* options must be in order: rebuild properly */
+    coap_delete_pdu(p);
+    p = coap_new_pdu(COAP_MESSAGE_CON, COAP_REQUEST_CODE_GET, k13_sess);
+    if (p) {
+      uint8_t t = 0x72;
+      if (!coap_add_token(p, 1, &t) || !coap_add_option(p, COAP_OPTION_OBSERVE, 0, NULL) ||
+          !coap_add_option(p, COAP_OPTION_URI_PATH, 3, (const uint8_t *)"obs")) {
+        coap_delete_pdu(p);
+        p = NULL;
+      }
+    }
+    if (p)
+      coap_send(k13_sess, p);
+  }
+  cs_pump(&S, 400, 120000);
+  if (S.r_obs)
+    coap_resource_notify_observers(S.r_obs, NULL);
+  cs_pump(&S, 400, 120000);
+}
+
 typedef void (*scn_fn)(void);
 static struct {
   const char *name;
@@ -394,7 +447,7 @@ static struct {
   int setup_injected; /* allocation failures also during context / endpoint / session / resource set-up */
 } K[] = {{"K1-get", k_get, 0},       {"K2-async", k_async, 0}, {"K3-block1", k_block1, 0}, {"K4-block2", k_block2, 0},
          {"K5-observe", k_observe, 0}, {"K7-uri", k_uri, 0},     {"K8-tcp", k_tcp, 0},       {"K9-ws", k_ws, 0},
-         {"K10-setup", k_setup, 1},   {"K11-rawblock1-nosize", k_rawblock1, 0}, {"K12-rawblock2-nosize", k_rawblock2, 0}};
+         {"K10-setup", k_setup, 1},   {"K11-rawblock1-nosize", k_rawblock1, 0}, {"K12-rawblock2-nosize", k_rawblock2, 0}, {"K13-oscore", k_oscore, 0}};
 #define NK ((int)(sizeof K / sizeof K[0]))
 
 static void
@@ -457,12 +510,19 @@ run(void *arg) {
     case 10:
       good = k12_len == 40 && k12_ok;
       break;
+    case 11:
+      good = S.resp_2xx >= 4 && S.notifications >= 2;
+      break;
     default:
       break;
     }
     if (!good)
       failsig("reference-run", "fault-free run of the scenario did not complete (2xx=%d notif=%d put=%d)", S.resp_2xx, S.notifications,
               S.srv_put_bytes);
+  }
+  if (k13_sess) {
+    coap_session_release(k13_sess);
+    k13_sess = NULL;
   }
   cs_free(&S);
   if (S.release_calls != S.large_calls)
@@ -500,7 +560,7 @@ main(int argc, char **argv) {
   for (int i = 0; i < n; i++)
     snprintf(names[i], sizeof names[i], "c18:%s:B=%d", cfgs[i].name, cfgs[i].bound);
   vx_ev_rule("catalogue of scenarios (request/response, async separate response, Block1, Block2, observe register+notify+cancel, URI/optlist "
-             "helpers + .well-known/core, TCP session with CSM, WebSocket upgrade, set-up/tear-down extras, Block1 upload from / Block2 download from a raw peer that sends no Size1 / Size2) on real client+server contexts; every "
+             "helpers + .well-known/core, TCP session with CSM, WebSocket upgrade, set-up/tear-down extras, Block1 upload from / Block2 download from a raw peer that sends no Size1 / Size2, OSCORE server + client session with a protected GET, observe registration and notification) on real client+server contexts; every "
              "call of coap_malloc_type / coap_realloc_type is a choice point: bound 1 = each single index k fails, bound 2 = every pair (quick: K1, K3, K4, K5, K11, K12; thorough: every scenario); "
              "non-trivial = a failure was injected; distinct = distinct observation logs (allocation index + outcome counters)");
   vx_ev_assumption("only allocations through libcoap's funnel fail; GnuTLS / uthash raw malloc are outside (as the property's anchor says)");
